@@ -53,7 +53,9 @@ func short(b []byte) string {
 func runWsFuzzTrial(id int, seed int64, url string, lg *flog) (bad []string, frames int, kinds map[string]int) {
 	rnd := rand.New(rand.NewSource(seed))
 	kinds = map[string]int{}
-	fail := func(f string, a ...any) { bad = append(bad, fmt.Sprintf("trial %d seed %d: ", id, seed)+fmt.Sprintf(f, a...)) }
+	fail := func(f string, a ...any) {
+		bad = append(bad, fmt.Sprintf("trial %d seed %d: ", id, seed)+fmt.Sprintf(f, a...))
+	}
 	peerCh := make(chan *websocket.Conn, 1)
 	key := fmt.Sprintf("f%d", id)
 	wsPeers.Store(key, peerCh)
